@@ -28,7 +28,8 @@ BAD_NAMES = ["State", "United States", "People", "Mass", "Co.", "Al", "Inc.", "C
              "al-Kidd", "eBay", "de Leon", "du Pont", "iPhone", "$124,570", "1st Bank", "\u00dfeta", "\u0661\u0662\u0663", "\u00b2\u00b3\u00b9",
              "Smithco.", "Q", "von Braun", "mcDonald", "x-Ray"]
 # unusual names the rule admits
-ODD_NAMES = ["\u00c9clair", "O'Brien", "McDonald", "X-Ray", "ABC", "Pe\u00f1a", "D'Amato", "\u0141o\u015b", "\u042f\u043a\u043e\u0432\u043b\u0435\u0432", "Int'l", "AT&T"]
+ODD_NAMES = ["\u00c9clair", "O'Brien", "McDonald", "X-Ray", "ABC", "Pe\u00f1a", "D'Amato", "\u0141o\u015b", "\u042f\u043a\u043e\u0432\u043b\u0435\u0432", "Int'l", "AT&T",
+             "De Leon", "Van Buren", "La Salle", "Wal Mart"]
 REPS = ["U.S.", "F.2d", "F.3d", "S. Ct.", "A.2d", "N.E.2d", "U. S."]
 FILL = ["The court considered the matter at length.", "That reasoning is persuasive.", "We disagree with the dissent &amp; concurrence.",
         "Nothing in the record suggests otherwise.",
@@ -180,6 +181,8 @@ def scenario_markup(draw):
             i = draw(st.sampled_from(cited))
             c = cases[i]
             nm = draw(st.sampled_from([c["pl"], c["df"]]))
+            if " " in nm and draw(st.integers(0, 2)) == 0:
+                nm = nm.replace(" ", "")  # the words of a multi-word name run together: a different string, not the name
             pin = c["page"] + draw(st.integers(0, 50))
             if kind == "mention":
                 wrap = draw(st.sampled_from([("In ", " the"), ("In ", " the"), ("The rule of (", ") was; the"), ("See “", "” where the"), ("in\u00a0", "\u00a0the")]))
